@@ -39,6 +39,16 @@ var raceKeys = []string{"a", "dir/b"}
 
 var raceNo int
 
+const zombieFinding = "C16-upload-overtakes-acknowledged-deletebucket"
+
+var strictR bool
+
+func runRStrict(c caseR) error {
+	strictR = true
+	defer func() { strictR = false }()
+	return runR(c)
+}
+
 func runR(c caseR) error { _, err := execR(c); return err }
 
 func execR(c caseR) (overlap bool, err error) {
@@ -206,6 +216,17 @@ func execR(c caseR) (overlap bool, err error) {
 			}
 			if present && !replaced && !bytes.Equal(g.Body, body(i)) {
 				return overlap, fmt.Errorf("after the race %q does not hold the acknowledged upload (op%d)%s", key, i, hist.String())
+			}
+			if present && delAck && !recreated {
+				// Both the upload and a DeleteBucket were acknowledged and the object is there: the upload overtook the
+				// deletion and re-created the bucket directory through its parent-directory creation. The property
+				// allows only "delete refused" or "upload refused"; nothing is lost, but the bucket now exists without
+				// owner / ACL. Listed finding; an acknowledged object that is gone stays a violation (below).
+				if kf.Open(zombieFinding) && !strictR {
+					ev.Known(zombieFinding)
+					continue
+				}
+				return overlap, fmt.Errorf("the upload of %q (op%d: %d) and DeleteBucket were both acknowledged; the bucket exists again without having been created%s", key, i, resp[i].Status, hist.String())
 			}
 			if !present && delAck {
 				return overlap, fmt.Errorf("the upload of %q was acknowledged (op%d: %d) and DeleteBucket was acknowledged too: the object is lost (bucket exists now: %v, re-created: %v)%s", key, i, resp[i].Status, exists, recreated, hist.String())
@@ -411,4 +432,4 @@ func TestC16Race(t *testing.T) {
 	})
 }
 
-func init() { handlers["C16R"] = pt.Wrap(runR) }
+func init() { handlers["C16R"] = pt.Wrap(runR); handlers["C16RS"] = pt.Wrap(runRStrict) }
